@@ -210,6 +210,9 @@ class PathRecord:
 
         obs["logs"] = [(val(a), tuple(val(t) for t in topics), raw if isinstance(raw, bytes) else val(raw).to_bytes(n, "big"))
                        for a, topics, raw, n in self.logs]
+        # documented modelling assumption of halmos' storage (hash range): a location `keccak(..) + offset` does not
+        # wrap around 2^256.  An input that makes a written location wrap is outside the claim.
+        obs["hash_offset_wraps"] = any(_wraps(ev, loc) for _a, loc, _v, _t in self.readback)
         for a, loc, v, transient in self.readback:
             flat = ev.ev(loc)
             val = ev.ev(v) if not isinstance(v, Exception) else f"EXC {type(v).__name__}: {v}"
@@ -220,6 +223,17 @@ class PathRecord:
         for a, (code, n) in self.code.items():
             obs["code"][a] = code if isinstance(code, bytes) else ev.ev(code).to_bytes(n, "big")
         return obs
+
+
+def _wraps(ev, term, depth=0):
+    """does evaluating the location term involve an addition that leaves [0, 2^256) and has a keccak summand?"""
+    if depth > 6 or not z3.is_app(term):
+        return False
+    kids = term.children()
+    if term.decl().kind() == z3.Z3_OP_BADD and any("sha3" in str(k.decl().name()) or (z3.is_app(k) and any("sha3" in str(g.decl().name()) for g in k.children())) for k in kids):
+        if sum(ev.ev(k) for k in kids) >= (1 << term.size()):
+            return True
+    return any(_wraps(ev, k, depth + 1) for k in kids)
 
 
 def run_scenario(scn):
